@@ -40,7 +40,9 @@ def run(ctx):
     from . import r_word as RW
     RR.hit_from_record(ctx, "R03.k")
     RW.word_field_from_lang(ctx, "R03.k", "set_stem", "stem", "Lang::stem")
-    return info("R03.k: a hit carries the whole title of its record (no truncation) and the stem of a word is computed from exactly the word's characters. "
+    from . import C20 as _RC20
+    _RC20.api_effects(ctx, "R03.l", which=("add",))
+    return info("R03.l: add_record really adds the record to the addressed store on every call (the registry API is not exercised by the repository's tests). R03.k: a hit carries the whole title of its record (no truncation) and the stem of a word is computed from exactly the word's characters. "
                 "Necessary constants/shapes for prefix search: the Jaccard gate accepts distance 1/2 (first keystroke), "
                 "the length and DL gates accept distance 0, the gram iterator starts at width 1 and index writer and "
                 "reader share one gram generator, the candidate cap is at least the limit, and for an unfinished query "
